@@ -65,10 +65,8 @@ OBLIGATIONS = [
     "SkVerif.C16.union_accepts_always",
     "SkVerif.C16.union_rowwise",
     "SkVerif.C16.union_select_equivariant",
-    "SkVerif.C16.getDer_default_index_partial",
-    "SkVerif.C16.getDer_label_origin_witness",
-    "SkVerif.C16.meanAsStored_partial",
-    "SkVerif.C16.meanAsStored_int_witness",
+    "SkVerif.C16.getDer_index_invariant",
+    "SkVerif.C16.slopeMean_dtype_invariant",
     # about the ORIGINAL FeatureUnion._hstack (before /repo bec276b): the record of the repaired findings
     "SkVerif.C16.original_union_container_witness",
     "SkVerif.C16.original_union_default_labels_rowwise",
@@ -214,9 +212,6 @@ def _registry():
             bases=("N", "N", "A")):
         reg[key] = dict(kind=kind, mk=mk, params=params, src=src, uni=uni, mv=mv, ragged=ragged, refit=refit,
                         slow=slow, minL=minL, hs=hs, bases=bases, bag=key in ("sax", "sfa"),
-                        # known findings the model reproduces (remove the flag when the fix lands):
-                        labelidx=key in ("dslope",),        # nested cells are read by LABEL (x[i] on the Series)
-                        inttrunc=key in ("slope",),         # statistics.mean truncates for integer-typed cells
                         # a forecaster is fitted on each cell: there the time index IS data (gaps are rejected)
                         tix=tuple(t for t in TIX if not (key == "fpe" and t == "even")))
 
@@ -552,10 +547,6 @@ def meta_real(case):
                 ties = [i for i in range(P.shape[0]) if int((P[i] == P[i].max()).sum()) > 1]
             except Exception:
                 ties = []
-        if ent.get("inttrunc") and dts.get("xa"):
-            # rows of integer-typed instances: alone (or among integer-typed ones only) they are computed on an
-            # integer array and statistics.mean truncates; not predicted by the model (masked), oracle still sees them
-            ties = sorted(set(ties) | {i for i, inst in enumerate(dts["xa"]) if any(c in ("i8", "i4") for c in inst)})
         parts.append("t=" + (",".join(map(str, ties)) or "-"))
         if ent["hs"] != "-":                                # feature union: number of output columns per member
             try:
@@ -659,9 +650,8 @@ def meta_line(case):
             ops.append("cont")
         else:
             ops.append("contfit:%s:%s:%s" % ("T" if u else "F", k, dims(case["xf"])))
-    nx = bool(registry()[case["est"]].get("labelidx")) and case.get("tix", "default") != "default"
-    return "C16 meta %s %s %s:%s %s %s %s %s %s" % ("T" if u else "F", k, case["base"], dims(case["xa"]), f.get("t", "-"),
-                                                    f.get("w", "-"), "T" if nx else "F", f.get("B", "_"), " ".join(ops))
+    return "C16 meta %s %s %s:%s %s %s %s %s" % ("T" if u else "F", k, case["base"], dims(case["xa"]), f.get("t", "-"),
+                                                 f.get("w", "-"), f.get("B", "_"), " ".join(ops))
 
 
 def meta_oracle(case, out):
